@@ -266,7 +266,12 @@ def gf2_sites(repo: Repo, rel: str) -> List[Tuple[ast.FunctionDef, ast.AST]]:
                 top = n
             if top is not None:
                 out.append((fn, top))
-    return out
+    # keep outermost sites only (an astype inside a flagged `% 2` is the same construct)
+    keep = []
+    for fn, t in out:
+        if not any(t is not o and any(x is t for x in ast.walk(o)) for _, o in out):
+            keep.append((fn, t))
+    return keep
 
 
 def rule_gf2round(ctx: Ctx, armed: List[Tuple[str, str]], advisory: List[Tuple[str, str]]) -> None:
